@@ -158,3 +158,8 @@ def wsdl(c):
         if cl and all(isinstance(x, (bytes, str)) for x in chunks):
             c.check('content_length_matches_body', cl[0] == str(sum(len(x) for x in chunks)))
         c.check('no_leak', all(SECRET.encode() not in (x if isinstance(x, bytes) else x.encode()) for x in chunks))
+    closed = [i for i, t in enumerate(tr) if t[:3] == ('event', 'app', 'method_context_closed')]
+    c.check('context_closed_exactly_once', len(closed) == 1, detail=len(closed))
+    sri = [i for i, t in enumerate(tr) if t[0] == 'start_response']
+    if closed and sri:
+        c.check('context_closed_after_start_response', closed[0] > sri[0])
